@@ -48,20 +48,26 @@ def dim_labels(rng, kind, allow_empty, off=0):
 def gen_input(rng, kinds, allow_empty, base=None, off=0):
     nd = rng.randint(0, 3)
     dims = rng.sample(POOL, nd)
-    labs, ks = [], []
+    labs, ks, lts = [], [], []
     for d in dims:
         if base is not None and d in base:
-            l, k = base[d]
+            l, k, lt = base[d] if len(base[d]) == 3 else tuple(base[d]) + (None,)
         else:
-            l, k = dim_labels(rng, kinds[d], allow_empty, off)
+            o_ = off
+            if off and kinds[d] == 'if' and rng.random() < 0.5:
+                o_ = 0          # small labels next to the other inputs' large ones (this input's float labels may then be single precision)
+            l, k = dim_labels(rng, kinds[d], allow_empty, o_)
+            lt = gen.label_dtype(rng, l, k, p=0.25 if o_ == off else 0.6)
+            l = gen.extremes(rng, l, lt)
         labs.append(l)
         ks.append(k)
-    sp = {"dims": dims, "labels": labs, "kinds": ks,
+        lts.append(lt)
+    sp = {"dims": dims, "labels": labs, "kinds": ks, "ldtypes": lts,
           "values": gen.values(rng, tuple(len(l) for l in labs), rng.choice('ffi'))}
     if nd and rng.random() < 0.2:
         # the input is a positional slice of a bigger array whose axis ordering has been queried before
         q = rng.randrange(nd)
-        if ks[q] != 's' and len(labs[q]) >= 1:
+        if ks[q] != 's' and len(labs[q]) >= 1 and lts[q] is None:
             sp["derive"] = {"dim": q, "extra": [max(labs[q]) + 10 + rng.randint(0, 3)] if ks[q] == 'i' else [max(labs[q]) + 10.5]}
     return sp
 
@@ -79,8 +85,8 @@ def gen_case(rng):
             vs = {}
             for name in rng.sample(['u', 'v', 'q'], rng.randint(1, 2)):
                 sp = gen_input(rng, kinds, allow_empty, base, off)
-                for d, l, k in zip(sp["dims"], sp["labels"], sp["kinds"]):
-                    base[d] = (l, k)
+                for d, l, k, lt in zip(sp["dims"], sp["labels"], sp["kinds"], sp["ldtypes"]):
+                    base[d] = (l, k, lt)
                 vs[name] = sp
             inputs.append({"ds": vs})
         else:
